@@ -302,19 +302,19 @@ Qed.
 
 (* half-integers: the functional equation Gamma(x+1) = x Gamma(x) at x = k/2 together with
    Gamma(1/2) = sqrt(pi) (coefficient 1) determines the coefficient of sqrt(pi).  With the 32-bit
-   product of gamma_multiple_2 it holds exactly for -21 <= k <= 19 ... *)
+   product of gamma_multiple_2 it holds exactly for -19 <= k <= 19 ... *)
 Definition gamma_half_step (k : Z) : bool :=
   Qeq_bool (gamma_half (k + 2)) ((k # 2) * gamma_half k).
 Definition odd_range (lo : Z) (count : nat) : list Z := map (fun i => lo + 2 * Z.of_nat i) (seq 0 count).
 
 Theorem gamma_half_guarded :
   Qeq_bool (gamma_half 1) 1 = true
-  /\ forallb gamma_half_step (odd_range (-21) 21) = true.
+  /\ forallb gamma_half_step (odd_range (-19) 20) = true.
 Proof. split; vm_compute; reflexivity. Qed.
 
 (* ... and fails beyond: Gamma(23/2) <> (21/2) Gamma(21/2) in the model (int overflow of 21!!) *)
 Theorem gamma_half_refuted :
-  gamma_half_step 21 = false /\ gamma_half_step (-23) = false.
+  gamma_half_step 21 = false /\ gamma_half_step (-21) = false.
 Proof. split; vm_compute; reflexivity. Qed.
 
 (* ------------------------------------------------------------------ primepi *)
